@@ -72,6 +72,8 @@ def gen_scenario(rng, small=False):
         "test_mode": rng.random() < 0.8,
         "max_wakeup_delay": rng.choice([0.0, 0.0, 0.25, 1.0, 3.0, 8.0]),
         "clock_offsets": [rng.choice([0.0, 0.0, 5.0, -3.0, 100.0]) for _ in range(4)],
+        # how long the pool thread may take before it starts running a submitted column (messages keep arriving meanwhile)
+        "exec_start_delay": rng.choice([0.0, 0.5, 2.0, 4.0, 8.0]),
     }
     if sc["max_wakeup_delay"] > 0:
         sc["delay_bias"] = {rng.choice(["w0", "w1", "w2", "*"]): rng.choice([0.3, 0.7, 0.95])}
@@ -258,7 +260,7 @@ def budget(scenario):
             v = scenario["svc"].get(t["name"], 0.25)
             mx = max(v) if isinstance(v, list) else max(v.values()) if isinstance(v, dict) else v
             total += mx * ((t.get("iterations") or 1) + (t.get("warmup_iterations") or 0)) * 4
-    per_step = 12.0 + 3 * scenario.get("max_wakeup_delay", 0.0)
+    per_step = 12.0 + 3 * scenario.get("max_wakeup_delay", 0.0) + 6 * scenario.get("exec_start_delay", 0.0)
     return 50.0 + total * 3 + per_step * (len(scenario["schedule"]) + 2) * 3
 
 
@@ -343,6 +345,18 @@ def run(ctx, case):
                 want = n * t["iterations"]
                 if reqs.get((ci, tname), 0) != want:
                     ctx.fail(shape + ":cut-short", f"client {ci} issued {reqs.get((ci, tname), 0)} requests of task {tname}, expected {want}", want, reqs.get((ci, tname), 0))
+        # completed-by: any — the element ends when the FIRST task to finish is done, so when it has ended at least one of its
+        # task allocations has run to its natural end
+        for ei, e in enumerate(sc["schedule"]):
+            if "par" in e and e["par"] and all(x.get("acp") for x in e["par"]):
+                overcommitted = e.get("clients") is not None and e["clients"] < sum(x["clients"] for x in e["par"])
+                if overcommitted:
+                    continue
+                finished = [(ci, tn) for (ci, tn), n in alloc_count.items() if elem_of[tn] == ei and spec[tn].get("iterations")
+                            and reqs.get((ci, tn), 0) == n * spec[tn]["iterations"]]
+                if not finished:
+                    ctx.fail(shape + ":any-ended-before-a-task-finished", f"element {ei} (completed-by any) ended although none of its tasks had run to its end",
+                             "at least one finished task allocation", {f"{ci}/{tn}": reqs.get((ci, tn), 0) for (ci, tn) in alloc_count if elem_of[tn] == ei})
     # ---------------- correspondence: replay the trace through the Lean model ----------------
     tags = []
     if d.allocations is not None and sim.actors["driver"].inst.driver.workers:
@@ -383,5 +397,5 @@ def shape_class(sc):
 
 
 STREAMS = [
-    Stream("simulated_races", gen, run, quick=400, thorough=200000, shards=16),
+    Stream("simulated_races", gen, run, quick=640, thorough=200000, shards=16),
 ]
